@@ -8,7 +8,7 @@ Next ==
     \/ /\ stage = 0 /\ Which = "resolve" /\ stage' = 2
        /\ \E f \in ResolveCases : cs' = [base |-> 0, files |-> f, inject |-> "none", where |-> <<>>]
     \/ /\ stage = 0 /\ Which = "split" /\ stage' = 1
-       /\ \E sp \in Splits : (ValidSplit(sp) /\ (IOEnv.MOD_SCOPE = "thorough" \/ Cardinality(DOMAIN sp.files) = 2
+       /\ \E sp \in Splits \cup SplitsTwo : (ValidSplit(sp) /\ (IOEnv.MOD_SCOPE = "thorough" \/ sp \in SplitsTwo \/ Cardinality(DOMAIN sp.files) = 2
                                                  \/ Len(sp.files[<<"main">>]) <= 3) /\ cs' = sp)
     \/ /\ stage = 1 /\ stage' = 2
        /\ \/ cs' = cs
